@@ -108,6 +108,42 @@ def dup_worlds():
             yield 'dupR-%s-%s-%s' % (drop1, drop2, graded), ref2, q2, [100 - 5, 100, 100 + 5, 100 + D - 5, 100 + D, 100 + D + 5]
 
 
+def collision_worlds():
+    """three-segment collisions A, B, C on three diagonals: B's first pair uses A's last QUERY label (with an earlier reference label),
+    B's second pair uses the REFERENCE label that C pairs second, and C's first pair uses A's last REFERENCE label.  Resolving A/B
+    leaves B one pair, resolving B/C empties B - and A and C still share a label: the comparison has to go on with the segment before
+    the emptied one.  (Other label pairs that happen to lie on one of the three diagonals are left in: they only add fragments.)"""
+    # the chainer admits A->B and B->C only if the overlap is at most half of B on the reference: the label gap before the shared
+    # reference label must equal the gap after it (G)
+    for G in (50, 60, 80):
+        for na in (3, 4, 5):
+            for nc in (3, 4):
+                for e in (0, 5, 20, 45):
+                    pre = [70, 40, 90, 60][4 - (na - 2):] if na > 2 else []
+                    gaps = [400] + pre + [G, G] + [80, 50, 70, 60][:nc] + [90]
+                    R = [0]
+                    for g in gaps:
+                        R.append(R[-1] + g)
+                    a0 = 1
+                    c = a0 + na - 1
+                    x = c - 1
+                    d0 = R[a0]
+                    qa = [R[i] - d0 for i in range(a0, c + 1)]
+                    d1 = d0 - (R[c] - R[x])
+                    qb2 = R[c + 1] - d1
+                    d2 = (R[c] - qb2) - 10 - e
+                    qc = [R[i] - d2 for i in range(c, c + nc)]
+                    q = qa + [qb2] + qc
+                    if any(y - x_ < 8 for x_, y in zip(q, q[1:])):
+                        continue
+                    yield 'collide-G%d-n%d-c%d-e%d' % (G, na, nc, e), list(R), q, sorted([d2, d1, d0])
+                    # the same collision with the roles of the two maps exchanged
+                    K, lo, hi = 100, a0 - 1, c + nc
+                    ref2 = [K + v for v in q]
+                    q2 = [R[i] - R[lo] for i in range(lo, hi + 1)]
+                    yield 'collideR-G%d-n%d-c%d-e%d' % (G, na, nc, e), ref2, q2, sorted(K + R[lo] - d for d in (d0, d1, d2))
+
+
 def mirror(q):
     return sorted(q[-1] - p for p in q)
 
@@ -264,7 +300,8 @@ def layers(tier, seed):
     base = list(base_worlds())
     if tier == 'quick':
         return [Ladders('base,k<=4', base, 4), Ladders('derived/5,k<=3', list(derived_worlds())[::5], 3),
-                Ladders('indel-ladders,k<=3', list(ladder_worlds(False)), 3), Ladders('duplications,k<=3', list(dup_worlds()), 3)]
+                Ladders('indel-ladders,k<=3', list(ladder_worlds(False)), 3), Ladders('duplications,k<=3', list(dup_worlds()), 3),
+                Ladders('collisions,k<=3', list(collision_worlds()), 3)]
     der = list(derived_worlds())
-    return [Ladders('base,k<=5', base, 5), Ladders('indel-ladders,k<=4', list(ladder_worlds(True)), 4), Ladders('duplications,k<=4', list(dup_worlds()), 4), Ladders('derived,k<=3', der, 3),
+    return [Ladders('base,k<=5', base, 5), Ladders('indel-ladders,k<=4', list(ladder_worlds(True)), 4), Ladders('duplications,k<=4', list(dup_worlds()), 4), Ladders('collisions,k<=3', list(collision_worlds()), 3), Ladders('derived,k<=3', der, 3),
             Ladders('derived,k=4', der, 4, optional=True)]
